@@ -475,8 +475,8 @@ def tie_signatures(ctx: Ctx) -> None:
                 observed = {"class": "default-mis-rendered", "construct": constructs[0], "effect": "def-line-invalid"}
             else:
                 observed = {"class": "sig-broken", "cause": "other", "effect": broken}
-            key = json_key(observed)
-            if not (same and key in reported_classes):
+            key = json_key(observed) + ("" if same else "/model-differs")
+            if key not in reported_classes or (not same and nviol < 2):
                 reported_classes.add(key)
                 ctx.report(observed, what, {"part": "A", "source": src_lines, "real_def_line": real, "model": mline,
                                             "driver_line": sig_driver_line(c), "strs": c.strs})
@@ -665,8 +665,8 @@ def tie_defaults(ctx: Ctx) -> None:
                 if expected is None or not all(re.fullmatch(expected, f) or re.fullmatch(r"not[0-9a-z]+|inf|nan", f) for f in free):
                     construct = "other"
             observed = {"class": "default-mis-rendered", "construct": construct, "effect": verdict}
-            key = json_key({k: observed[k] for k in ("class", "construct")})
-            if not (same and key in seen):
+            key = json_key({k: observed[k] for k in ("class", "construct")}) + ("" if same else "/model-differs")
+            if key not in seen or (not same and bad < 2):
                 seen.add(key)
                 ctx.report(observed, f"default `{src}` is emitted as `{real}`: {verdict}",
                            {"part": "B", "source_default": src, "emitted": real, "model": mline})
